@@ -32,9 +32,12 @@
 (*        effect depends on residue is the print point                     *)
 (*        (print_config_if_requested), plus the reads of pk/sap/args.      *)
 (*                                                                         *)
-(* ClearOnError = FALSE is the pinned tree: a request survives a failed or *)
-(* help-exited parse_args (named deviation "PendingResidue").  TRUE models *)
-(* the proposed repair (request dropped in a finally of parse_args).       *)
+(* ClearOnError = TRUE is the tree since fix: commit 9a553c5 (an unconsumed *)
+(* request is dropped in a finally of parse_args) and the model every      *)
+(* check runs with.  FALSE is the design before that repair, where a       *)
+(* request survives a failed or help-exited parse_args (named deviation    *)
+(* "PendingResidue"); it is kept for MC_Context_prefix.cfg, which lets     *)
+(* TLC show the counterexample as documentation.                           *)
 (***************************************************************************)
 EXTENDS Naturals, Sequences, FiniteSets, TLC
 
@@ -59,6 +62,9 @@ CONSTANT ClearOnError
 (*            help      --help ;  clshelp  --<cls>.help=<class>            *)
 (*            cfg       --cfg <valid config> (nested parse_string/path)    *)
 (*            cfgbad    --cfg <invalid config>                             *)
+(*            sel       --<cls>=<class spec with init_args> (a valid       *)
+(*                      option; what a later config would inherit from if  *)
+(*                      previous_config leaked)                            *)
 (*            ncls      --<cls>.<init_arg>=v: parse_object of a throw-away *)
 (*                      class parser (_typehints.py:1440), no residue      *)
 (*   sub    "none" or the sub-command token; sitems its argv items         *)
@@ -69,10 +75,14 @@ CONSTANT ClearOnError
 (*   dumpf  "none" | "error" | "raise": the lenient dump of the print      *)
 (*          point fails (KeyError/TypeError -> parser.error, other -> out) *)
 (*   late   "ok" | "fail": links / validation after the print point fail   *)
+(*   spec   parse_string / parse_path / parse_object: the configuration    *)
+(*          holds a class spec for the class-typed key: "full", "short"    *)
+(*          (init_args without class_path) or "none".  A hint for the      *)
+(*          concretisation; the Alg program is the same.                   *)
 (*   ser    dump only: some action.serialize runs (sets dump_kwargs); dkv  *)
 (*          the code of the dump kwargs                                    *)
 (***************************************************************************)
-ParseMethods == {"parse_args", "parse_object", "parse_string", "parse_env"}
+ParseMethods == {"parse_args", "parse_object", "parse_string", "parse_path", "parse_env"}
 Stoppers     == {"bad", "pcflag", "help", "clshelp", "cfgbad"}
 PrintDK      == "skip_none=False,skip_validation=False"     \* what the print point passes to dump (_actions.py:257,286)
 
@@ -114,6 +124,7 @@ Enter(v, x)  == I("enter", v, x, "", "")        \* manager that restores in fina
 Leave        == I("leave", "", "", "", "")
 SetU(v, x)   == I("set", v, x, "", "")          \* set WITHOUT reset
 ReadU(v)     == I("read", v, "", "", "")        \* read of a set-without-reset variable / of parser.args
+ReadM(v)     == I("readm", v, "", "", "")       \* read of a MANAGED variable outside every manager that sets it
 Fail(ch)     == I("fail", ch, "", "", "")
 Exit0(what)  == I("exit0", what, "", "", "")
 Ret          == I("ret", "", "", "", "")
@@ -169,7 +180,7 @@ SubCall(o) ==
            \o (IF HasBefore(o.sitems, "unk", 0) THEN <<Fail(ErrCh(o))>> ELSE Common(o, sp, FALSE)))
 
 ParseArgs(o) ==
-  (IF ClearOnError THEN <<I("guard", o.p, "", "", "")>> ELSE << >>)                                       \* proposed repair: try/finally around the body
+  (IF ClearOnError THEN <<I("guard", o.p, "", "", "")>> ELSE << >>)                                       \* fix 9a553c5: try/finally around the body (:449-473)
   \o <<I("shtab", o.p, "", "", ""), I("args", o.p, o.tag, "", "")>>                                           \* :439, :447
   \o (IF o.pre = "fail" THEN <<Enter("load_value_mode", "mode"), Fail(ErrCh(o))>>                      \* :404-405 bad environment value
       ELSE <<SetU("pk", o.kw)>>                                                                       \* :454
@@ -180,12 +191,19 @@ ParseArgs(o) ==
                              \o (IF HasBefore(o.items, "unk", 0) THEN <<Fail(ErrCh(o))>>                \* :457-458
                                  ELSE Common(o, o.p, TRUE) \o (IF ClearOnError THEN <<Leave>> ELSE << >>) \o <<Ret>>))))
 
+\* parse_string (:666-687): the text is loaded under load_value_mode and applied against previous_config.get() (:668) -
+\* a managed variable that only ActionConfigFile.apply_config sets (_actions.py:191-193, 224-230), read here OUTSIDE it;
+\* parse_path (:620-631) is parse_string inside change_to_path_dir; parse_env (:576) and parse_object (:504-506) likewise
 ParseOther(o) ==
-  (IF o.m = "parse_string" THEN <<Enter("load_value_mode", "mode")>> \o (IF o.pre = "fail" THEN <<Fail(ErrCh(o))>> ELSE <<Leave>>)   \* :667-668
-   ELSE IF o.m = "parse_env" THEN <<Enter("load_value_mode", "mode")>> \o (IF o.pre = "fail" THEN <<Fail(ErrCh(o))>> ELSE <<Leave>>)  \* :404-405
-   ELSE <<Enter("parent_parser", o.p), Enter("lenient_check", "true")>>                                                              \* _apply_actions :1371-1372
-        \o (IF o.pre = "fail" THEN <<Fail(ErrCh(o))>> ELSE <<Leave, Leave>>))
-  \o (IF o.pre = "fail" THEN << >> ELSE <<Enter("parent_parser", o.p), Leave>> \o Common(o, o.p, TRUE) \o <<Ret>>)                    \* merge_config :1393
+  (IF o.m = "parse_path" THEN <<Enter("cwd", "cfgdir")>> ELSE << >>)                                                                 \* :621 change_to_path_dir(fpath)
+  \o (IF o.m \in {"parse_string", "parse_path"} THEN <<Enter("load_value_mode", "mode"), ReadM("previous_config")>>                   \* :667-668
+                                                      \o (IF o.pre = "fail" THEN <<Fail(ErrCh(o))>> ELSE <<Leave>>)
+      ELSE IF o.m = "parse_env" THEN <<Enter("load_value_mode", "mode")>> \o (IF o.pre = "fail" THEN <<Fail(ErrCh(o))>> ELSE <<Leave>>)  \* :404-405
+      ELSE <<Enter("parent_parser", o.p), Enter("lenient_check", "true")>>                                                              \* _apply_actions :1371-1372
+           \o (IF o.pre = "fail" THEN <<Fail(ErrCh(o))>> ELSE <<Leave, Leave>>))
+  \o (IF o.pre = "fail" THEN << >>
+      ELSE <<Enter("parent_parser", o.p), Leave>>                                                                                     \* merge_config :1393
+           \o Common(o, o.p, TRUE) \o (IF o.m = "parse_path" THEN <<Leave>> ELSE << >>) \o <<Ret>>)      \* a late failure unwinds the cwd manager too
 
 NonParse(o) ==
   CASE o.m = "get_defaults" -> SubDefaults \o <<Ret>>                                                  \* :1008-1052 (no default config files)
@@ -248,6 +266,7 @@ StepFn(st) ==
     [] ins.i = "set"     -> [nx EXCEPT !.res = [st.res EXCEPT ![ins.a] = ins.b], !.wr = st.wr \cup {ins.a}]
     [] ins.i = "rewrite" -> [nx EXCEPT !.wr = st.wr \cup {ins.a}]                               \* writes back the value just read
     [] ins.i = "read"    -> [nx EXCEPT !.stale = st.stale \/ ins.a \notin st.wr]                \* reading what an EARLIER call left = history dependence
+    [] ins.i = "readm"   -> [nx EXCEPT !.stale = st.stale \/ st.ctx[ins.a] # Ctx0[ins.a]]          \* a managed variable must be back at its initial value here
     [] ins.i = "args"    -> [nx EXCEPT !.res.args[ins.a] = ins.b, !.wr = st.wr \cup {"args:" \o ins.a}]
     [] ins.i = "shtab"   -> [nx EXCEPT !.res.shtab[ins.a] = TRUE]
     [] ins.i = "request" -> [nx EXCEPT !.res.pending[ins.a] = ins.b]
